@@ -223,6 +223,17 @@ fn addr_case(a: &Address, tag: &str, oo: bool) {
     let back = from_bytes(&vec);
     let (Some(at), Some(bt)) = (coq_addr(a), coq_addr_out(&back)) else { return };
     emit_case(tag, &format!("(CAddr {} {} {} {} {} {} {})", at, coq_bytes(&vec), header, a.typeid(), hrp, coq_bytes(a.to_hex().as_bytes()), bt));
+    let be = match guard(|| a.to_bech32().map_err(|e| err_class(&e).to_string())) {
+        Out::Ok(s) => format!("(Ok {})", coq_bytes(s.as_bytes())), Out::Err(c) => format!("(Err {})", c), Out::Panic(_) => "(Panic 1)".into() };
+    emit_case(&format!("{}/to_bech32", tag), &format!("(CBech {} {})", at, be));
+    if let Address::Shelley(sa) = a {
+        let (ph, pd) = (if sa.payment().is_script() { "addr_shared_vkh" } else { "addr_vkh" }, sa.payment().to_vec());
+        emit_case("part-to_bech32", &format!("(CPartBech {} {} {})", coq_bytes(ph.as_bytes()), coq_bytes(&pd), coq_bytes(sa.payment().to_bech32().as_bytes())));
+        if let Ok(ds) = sa.delegation().to_bech32() {
+            let dh = if sa.delegation().is_script() { "stake_shared_vkh" } else { "stake_vkh" };
+            emit_case("part-to_bech32", &format!("(CPartBech {} {} {})", coq_bytes(dh.as_bytes()), coq_bytes(&sa.delegation().to_vec()), coq_bytes(ds.as_bytes())));
+        }
+    }
 }
 
 fn bytes_case(bs: &[u8], tag: &str, oo: bool) {
@@ -273,6 +284,108 @@ fn varuint_bytes(rng: &mut Rng) -> (Vec<u8>, &'static str) {
         5 => { let k = rng.range(0, 14) as usize; (rng.bytes(k), "read-random") }
         6 => { let mut v = vec![0xffu8; rng.range(9, 12) as usize]; v.push(0x7f); (v, "read-all-ones") }
         _ => { let mut v = canon(u64::MAX - rng.below(2)); if rng.bool() { let l = v.len(); v[l - 1] |= 0x80; v.push(rng.byte() & 0x7f); } (v, "read-max-then-more") }
+    }
+}
+
+// ---- reference bech32 (BIP-173), independent of the bech32 crate and of the Coq model
+const B32: &[u8] = b"qpzry9x8gf2tvdw0s3jn54khce6mua7l";
+fn b32_polymod(v: &[u8]) -> u32 {
+    const GEN: [u32; 5] = [0x3b6a57b2, 0x26508e6d, 0x1ea119fa, 0x3d4233dd, 0x2a1462b3];
+    let mut chk = 1u32;
+    for &x in v {
+        let b = chk >> 25;
+        chk = ((chk & 0x1ffffff) << 5) ^ x as u32;
+        for i in 0..5 { if (b >> i) & 1 == 1 { chk ^= GEN[i]; } }
+    }
+    chk
+}
+fn b32_to5(data: &[u8]) -> Vec<u8> {
+    let (mut acc, mut bits, mut out) = (0u32, 0u32, vec![]);
+    for &b in data {
+        acc = (acc << 8) | b as u32; bits += 8;
+        while bits >= 5 { bits -= 5; out.push(((acc >> bits) & 31) as u8); }
+    }
+    if bits > 0 { out.push(((acc << (5 - bits)) & 31) as u8); }
+    out
+}
+/// hrp bytes as given (the checksum uses the lower-cased hrp), then '1', symbols, checksum
+fn b32_string(hrp: &[u8], fes: &[u8], konst: u32) -> Vec<u8> {
+    let low: Vec<u8> = hrp.iter().map(|c| c.to_ascii_lowercase()).collect();
+    let mut v: Vec<u8> = low.iter().map(|c| c >> 5).collect();
+    v.push(0);
+    v.extend(low.iter().map(|c| c & 31));
+    v.extend_from_slice(fes);
+    v.extend([0u8; 6]);
+    let pm = b32_polymod(&v) ^ konst;
+    let mut s = hrp.to_vec();
+    s.push(b'1');
+    for &f in fes { s.push(B32[f as usize]); }
+    for i in 0..6 { s.push(B32[((pm >> (5 * (5 - i))) & 31) as usize]); }
+    s
+}
+
+/// Address::from_bech32 and Address::from_str on one string
+fn bech_case(bytes: &[u8], tag: &str, expect: Option<&Address>, oo: bool) {
+    let Ok(s) = std::str::from_utf8(bytes) else { return };
+    let r = from_bech32(s);
+    if let Some(a) = expect {
+        if !out_eq(&r, a) { emit_oracle_fail("bech32-parse", &format!("valid bech32 string {} of address {:?} parses to {}", s, a, show(&r))); }
+    }
+    if oo { return; }
+    if let Some(t) = coq_addr_out(&r) { emit_case(tag, &format!("(CFromBech {} {})", coq_bytes(bytes), t)); }
+    // from_str: bech32, then Byron base58 (not modelled here: only when it fails), then hex
+    let b58_fails = !matches!(guard(|| pallas_addresses::ByronAddress::from_base58(s).map_err(|e| err_class(&e).to_string())), Out::Ok(_));
+    if b58_fails {
+        let rs = from_str(s);
+        if let Some(t) = coq_addr_out(&rs) { emit_case(&format!("{}/from_str", tag), &format!("(CFromStr {} {})", coq_bytes(bytes), t)); }
+    }
+}
+
+fn rand_hrp(rng: &mut Rng, len: usize) -> Vec<u8> {
+    // valid lower-case hrp characters: 33..=126 without 'A'..='Z'
+    (0..len).map(|_| loop { let c = rng.range(33, 126) as u8; if !c.is_ascii_uppercase() { break c; } }).collect()
+}
+
+fn bech32_stream(rng: &mut Rng, n: usize, oo: bool) {
+    for _ in 0..n {
+        let t = *rng.pick(&TYPES);
+        let a = build(t, Network::from(rng.below(16) as u8), rng);
+        let abytes = a.to_vec();
+        let hl = match rng.below(4) { 0 => 1, 1 => rng.range(2, 10) as usize, 2 => rng.range(11, 83) as usize, _ => 4 };
+        let hrp = match rng.below(3) { 0 => b"addr".to_vec(), 1 => b"stake_test".to_vec(), _ => rand_hrp(rng, hl) };
+        let fes = b32_to5(&abytes);
+        let good = b32_string(&hrp, &fes, 1);
+        match rng.below(16) {
+            0 | 1 => bech_case(&good, "bech32-valid-any-hrp", Some(&a), oo),
+            2 => { let up: Vec<u8> = good.iter().map(|c| c.to_ascii_uppercase()).collect(); bech_case(&up, "bech32-valid-uppercase", Some(&a), oo) }
+            3 => { // mixed case: upper-case one letter of a lower-case string
+                let mut m = good.clone();
+                let idx: Vec<usize> = (0..m.len()).filter(|&i| m[i].is_ascii_lowercase()).collect();
+                if idx.len() >= 2 { let k = *rng.pick(&idx); m[k] = m[k].to_ascii_uppercase(); bech_case(&m, "bech32-mixed-case", None, oo) } }
+            4 => bech_case(&b32_string(&hrp, &fes, 0x2bc830a3), "bech32m-checksum", None, oo),
+            5 => { // bad checksum: another charset character somewhere in the data part
+                let mut m = good.clone(); let k = hrp.len() + 1 + rng.below((m.len() - hrp.len() - 1) as u64) as usize;
+                let c = loop { let c = *rng.pick(B32); if c != m[k] { break c; } }; m[k] = c; bech_case(&m, "bech32-bad-checksum", None, oo) }
+            6 => { let mut m = good.clone(); let k = hrp.len() + 1 + rng.below((m.len() - hrp.len() - 1) as u64) as usize;
+                   m[k] = *rng.pick(&[b'b', b'i', b'o', b'B', b' ', b'!', b'1', 0x7f]); bech_case(&m, "bech32-bad-character", None, oo) }
+            7 => { // arbitrary data bytes, incl. empty
+                let l = match rng.below(4) { 0 => 0, 1 => rng.range(1, 5) as usize, 2 => rng.range(28, 58) as usize, _ => rng.range(0, 70) as usize };
+                let d = rng.bytes(l); bech_case(&b32_string(&hrp, &b32_to5(&d), 1), "bech32-valid-arbitrary-data", None, oo) }
+            8 => { let m: Vec<u8> = good.iter().copied().filter(|&c| c != b'1').collect(); bech_case(&m, "bech32-no-separator", None, oo) }
+            9 => bech_case(&b32_string(b"", &fes, 1), "bech32-empty-hrp", None, oo),
+            10 => { let hl2 = if rng.bool() { 83 } else { 84 }; let h = rand_hrp(rng, hl2); bech_case(&b32_string(&h, &fes, 1), "bech32-hrp-83-84", None, oo) }
+            11 => { let k = rng.below(6) as usize; let mut m = hrp.clone(); m.push(b'1'); for _ in 0..k { m.push(*rng.pick(B32)); } bech_case(&m, "bech32-short-data-part", None, oo) }
+            12 => { let dl = rng.range(60, 120) as usize; let d = rng.bytes(dl); bech_case(&b32_string(&hrp, &b32_to5(&d), 1), "bech32-valid-long-data", None, oo) }
+            13 => { // non-zero padding bits / one surplus symbol: byte_iter drops them
+                let mut f = fes.clone();
+                if rng.bool() { let l = f.len(); let pad = (5 * l - 8 * abytes.len()) as u32; if pad > 0 { f[l - 1] |= (rng.range(1, (1u64 << pad) - 1)) as u8; } } else { f.push(rng.below(4) as u8); }
+                bech_case(&b32_string(&hrp, &f, 1), "bech32-nonzero-padding", None, oo) }
+            14 => { let mut h = rand_hrp(rng, 6); h[rng.below(6) as usize] = b'1'; h[rng.below(6) as usize] = *rng.pick(&[b'!', b'~', b'_', b'1']);
+                    bech_case(&b32_string(&h, &fes, 1), "bech32-hrp-with-separator-char", Some(&a), oo) }
+            _ => { let mut h = rand_hrp(rng, 5);
+                   match rng.below(3) { 0 => h[2] = b' ', 1 => h[2] = 0x7f, _ => { h.truncate(3); h.extend("é".as_bytes()); } }
+                   bech_case(&b32_string(&h, &fes, 1), "bech32-hrp-invalid-character", None, oo) }
+        }
     }
 }
 
@@ -403,6 +516,19 @@ fn run(args: Args) {
               "015bad085057ac10ecc7060f7ac41edd6f63068d8963ef7d86ca58669e5ecf2d283418a60be5a848a2380eb721000da1e0bbf39733134beca4cb57afb0b35fc89c63061c9914e055001a518c7516"] {
         hex_case(s, "hex-crate-test-vector", oo);
         bytes_case(&::hex::decode(s).unwrap(), "bytes-crate-test-vector", oo);
+    }
+
+    // ---- bech32 text: arbitrary hrp / data, case rules, checksums, characters, lengths
+    bech32_stream(&mut rng, (args.n / 2).max(100), oo);
+    // code length limit: total length exactly 1023 (accepted) and 1024 (rejected); costly in the model, so only four
+    for hl in [4usize, 5, 4, 5] {
+        let d = rng.bytes(632); let h = rand_hrp(&mut rng, hl);
+        bech_case(&b32_string(&h, &b32_to5(&d), 1), "bech32-length-1023-1024", None, oo);
+    }
+    for v in ["addr1qx2fxv2umyhttkxyxp8x0dlpdt3k6cwng5pxj3jhsydzer3n0d3vllmyqwsx5wktcd8cc3sq835lu7drv2xwl2wywfgse35a3x",
+              "stake1uyehkck0lajq8gr28t9uxnuvgcqrc6070x3k9r8048z8y5gh6ffgw", "addr1vx2fxv2umyhttkxyxp8x0dlpdt3k6cwng5pxj3jhsydzers66hrl8",
+              "a12uel5l", "A12UEL5L", "a1lqfn3a", "1pzry9x0s0muk", "pzry9x0s0muk", "x1b4n0q5v", "li1dgmt3", "de1lg7wt\u{ff}", ""] {
+        bech_case(v.as_bytes(), "bech32-fixed-vector", None, oo);
     }
 
     // ---- hex text: case, odd length, bad characters
